@@ -19,7 +19,7 @@ pub fn jobs(ctx: &Ctx) -> Vec<Job> {
     let caps = &ctx.caps;
     let mut jobs = Vec::new();
     let mut k = 0usize;
-    let payloads = ctx.tier.pick(3, ctx.scale(60));
+    let payloads = ctx.tier.pick(6, ctx.scale(300));
     for v in 1..=40usize {
         for level in 0..4usize {
             for mask in 0..8usize {
